@@ -19,13 +19,13 @@ PROPERTIES = {
         out=['duke/src/class_reader.rs read_annotations_attribute / read_element_value* / read_type_annotations_* / read_module / read_record_component content', 'duke/src/class_reader/pool.rs get_loadable recursion through bootstrap methods',
              'duke/src/visitor/implementations/tree.rs (tree-building visitor)']),
     'C02': dict(
-        level='proof', verus=['cwrite', 'wjump', 'wpool', 'wencode', 'wattrs', 'wtypes', 'wannot'], kani=['flags'], enum=['cls'],
+        level='proof', verus=['cwrite', 'wjump', 'wpool', 'wencode', 'wattrs', 'wtypes', 'wannot', 'wput'], kani=['flags'], enum=['cls'],
         technique=VERUS_TECH,
         claim='Unbounded proof, for the functions under contract only: every jump emitted by if_helper/goto_helper/switch_helper has exactly the narrow / wide / inverted-if+goto_w byte shape with the offset that lands on the label, '
               'the narrow form is chosen iff the offset fits i16, unresolved jumps reserve a slot whose recorded patch position and base are exact, put_i16_at/put_i32_at patch big-endian and touch nothing else, '
               'alignment pads with <4 zero bytes, checked usize->uN length writers. Partial: the retry loop of write_code, pool de-duplication and attribute emitters are not under contract.',
         note='Trusted: Verus+Z3; extraction rewrites; Vec<u8> sink model (write_all appends, never fails); to_be_bytes stubs; obeys_key_model::<Label>(); ordered LabelRange precondition.',
-        out=['write_code retry loop and instruction match (closure)', 'duke/src/simple_class_writer/pool.rs PoolWrite::put (HashMap::entry)', 'attribute emitters']),
+        out=['write_code retry loop as a whole (fixpoint of the label table)', 'duke/src/simple_class_writer/pool.rs PoolEntry::from_* converters and put_bootstrap_method', 'write_module, write_type_reference_code (closures)']),
     'C04': dict(
         level='proof', verus=['adiff'], kani=['names', 'diff'], enum=['maps'],
         technique=VERUS_TECH,
@@ -95,7 +95,7 @@ PROPERTIES = {
     'C10': dict(
         level='other', verus=[], kani=[], enum=['maps'],
         technique=ENUM_TECH,
-        explanation='Bounded stand-in for Mappings::remove_dummy: 3364 mapping sets mixing placeholder names (C_, net/minecraft/unmapped/C_, f_, m_, p_, <init>, <clinit>) and real names, with and without comments, at every nesting depth.',
+        explanation='Bounded stand-in for Mappings::remove_dummy: 3844 mapping sets mixing placeholder names (C_, net/minecraft/unmapped/C_, f_, m_, p_, <init>, <clinit>) and real names, with and without comments, at every nesting depth.',
         claim='Bounded (not proved), mapping side only: remove_dummy deletes exactly the entries the documented rules name and returns every other entry unchanged, is idempotent, never removes an entry that still has a retained child. '
               'Not covered: the diff-side filter insert_dummy_and_contract_inner_names.',
         note='Bounded stand-in, NOT a proof: the operation works on IndexMap<JavaString,..> trees through nested closures and text I/O (outside Verus; CBMC gave no verdict in 10 min on one IndexMap insertion chain), so the real code is run natively on every mapping set of a stated small universe and compared with a model-level oracle written from the property statement (kx/enum/maps.rs: own model, own Tiny v2 renderer/parser). Inputs beyond the bound are not covered.',
@@ -163,7 +163,7 @@ PROPERTIES = {
              'Bounded stand-in for the name predicates and as a second opinion on the parsers: native enumeration against an independent oracle (kx/enum).',
         out=['duke/src/tree/mod.rs names::is_valid_* (assumed / bounded only)', 'duke/src/tree/class.rs, field.rs, method.rs check_valid wrappers', 'unicode names beyond the bounded alphabet', 'signatures (check_valid accepts everything)']),
     'C16': dict(
-        level='proof', verus=['rlabels', 'cwrite', 'wjump', 'wpool', 'wencode', 'wattrs', 'wtypes', 'wannot', 'rskip', 'rbranch', 'rscan', 'rpool', 'rdecode', 'rframes', 'rattrs', 'rtables', 'raccept', 'rtree', 'rarms', 'rtypes', 'rpoolres', 'rannot', 'aaccept', 'abuild', 'adiff', 'scope', 'c20len', 'desc', 'inner'], kani=[], enum=['desc', 'mapdesc', 'cls', 'enigma'],
+        level='proof', verus=['rlabels', 'cwrite', 'wjump', 'wpool', 'wencode', 'wattrs', 'wtypes', 'wannot', 'wput', 'rskip', 'rbranch', 'rscan', 'rpool', 'rdecode', 'rframes', 'rattrs', 'rtables', 'raccept', 'rtree', 'rarms', 'rtypes', 'rpoolres', 'rannot', 'aaccept', 'abuild', 'adiff', 'scope', 'c20len', 'desc', 'inner'], kani=[], enum=['desc', 'mapdesc', 'cls', 'enigma'],
         technique=VERUS_TECH + ': implicit safety obligations (overflow, index, unwrap, unreachable, termination)',
         claim='Unbounded proof of panic-freedom and termination for every function extracted for the other properties (Verus generates no-overflow, in-bounds, no-failing-unwrap, unreachable!() unreachable, decreases obligations for each). '
               'This includes the descriptor parsers (read_field_type, the three parse functions, get_arguments_size) on arbitrary text. Partial: the line-oriented text parsers built on BufRead are outside the verifier and not covered.',
